@@ -82,7 +82,7 @@ class C13(ProgramProperty):
     configs = ('B', 'A')
     technique = ('differential property testing (PyGen programs with non-ASCII, mixed line endings, BOM and out-of-source-order constructs): linear locator vs '
                  'random-access locator vs a naive line/character model vs CPython lineno/col, plus error-offset conversion')
-    level_text = ('~15k (quick) / 300k (thorough) generated programs: every node of the located tree must carry the 1-based line and character column of its byte '
+    level_text = ('~40k (quick) / 300k (thorough) generated programs: every node of the located tree must carry the 1-based line and character column of its byte '
                   'range (CR, LF, CRLF each one break, multi-byte characters one column, BOM not counted) under both locators - a panic of the linear '
                   "locator's debug self-check is a failure - and agree with CPython's lineno / column for positioned nodes; error offsets convert the same way")
     level_note = 'trusts the naive model (universal-newline line table + character count) and CPython 3.11 positions; default build, and all-nodes-with-ranges in thorough'
@@ -91,7 +91,7 @@ class C13(ProgramProperty):
             'f-string)}; distinct by case hash')
 
     def budget(self, tier):
-        return 15000 if tier == 'quick' else 300000
+        return 40000 if tier == 'quick' else 300000
 
     def avoid(self):
         return {'C13-F1'}
